@@ -7,12 +7,14 @@
 
 from typing import Optional, List, TypeVar, Union
 from typing_extensions import Annotated
-from pydantic import BaseModel, StringConstraints
+from pydantic import BaseModel, ConfigDict, StringConstraints
 
 from floogen.utils import snake_to_camel, sv_param_decl, sv_typedef, sv_struct_render
 
 class ProtocolDesc(BaseModel):
     """Protocol class to describe a protocol."""
+
+    model_config = ConfigDict(extra="forbid")
 
     name: str
     description: Optional[str] = ""
